@@ -104,10 +104,12 @@ def case_term(case, ob):
             f"{'true' if ob['fresh'] else 'false'})")
 
 
-def run_cases(ck, cases):
+def run_cases(ck, cases, subclasses=None):
     chunks = [cases[i:i + 500] for i in range(0, len(cases), 500)]
-    # third element: make equal non-empty sub-dictionaries of the overrides one object (aliases)
-    res = ck.run_impl("impl_merge.py", [{"cases": [[o, v, True] for o, v in c]} for c in chunks])
+    # third element: make equal non-empty sub-dictionaries of the overrides one object (aliases); fourth: every
+    # other nested dictionary is an instance of a dict subclass (odd cases, or as recorded in a replay)
+    res = ck.run_impl("impl_merge.py", [{"cases": [[o, v, True, bool(i % 2) if subclasses is None else subclasses]
+                                                   for i, (o, v) in enumerate(c)]} for c in chunks])
     obs = []
     for c, r in zip(chunks, res):
         if "error" in r:
@@ -146,7 +148,8 @@ def run(ck: Check):
             n_fail += 1
             if n_fail <= 50:
                 ck.fail_input("merge:" + why, f"merge_config({c[0]!r}, {c[1]!r}): {why}",
-                              {"original": c[0], "overrides": c[1], "observed": o, "expected": spec_merge(*c)})
+                              {"original": c[0], "overrides": c[1], "observed": o, "expected": spec_merge(*c),
+                               "dict_subclasses": bool((i % 500) % 2)})
     for i in bad[:20]:
         if not oracle(cases[i], obs[i]):
             ck.broke("correspondence", {"case": i, "original": cases[i][0], "overrides": cases[i][1],
@@ -188,7 +191,7 @@ def run(ck: Check):
 def replay(ck: Check, obj) -> int:
     rp = obj["replay"]
     case = (rp["original"], rp["overrides"])
-    ob = run_cases(ck, [case])[0]
+    ob = run_cases(ck, [case], subclasses=bool(rp.get("dict_subclasses")))[0]
     print("implementation:", ob)
     print("property requires:", spec_merge(*case), "and unchanged arguments")
     why = oracle(case, ob)
